@@ -132,8 +132,8 @@ CHECKS = {
                 'with the files byte-identical afterwards. Environment faults: io_block_size 1..4096, blsc framing with '
                 'tiny compression blocks, shuffled listings, junk files, path spellings, file lists in any order.',
         'design_ref': 'DESIGN.md 4 (C01), 2.3',
-        'note': 'no threads involved: the simulator owns storage and the allocator; worlds <= 4 slabs x 6 halos x 8 particles; '
-                '',
+        'note': 'no threads involved: the simulator owns storage and the allocator; worlds <= 4 slabs x 6 halos x 8 particles '
+                '(thorough: 6 x 12 x 16), light-cone layout included',
     },
     'C02': {
         'engine': 'E2-world',
